@@ -351,11 +351,14 @@ def check_constant(name, precision, got):
         return "NaN for the constant %s" % name
     from decimal import Decimal, ROUND_HALF_EVEN, ROUND_DOWN
     ok = False
-    for kdig in range(0, 40):
-        q = Decimal(1).scaleb(-kdig)
-        for mode in (ROUND_DOWN, ROUND_HALF_EVEN):
-            if float(Decimal(c).quantize(q, rounding=mode)) == got:
-                ok = True
+    import decimal
+    with decimal.localcontext() as dc:
+        dc.prec = 120
+        for kdig in range(0, 40):
+            q = Decimal(1).scaleb(-kdig)
+            for mode in (ROUND_DOWN, ROUND_HALF_EVEN):
+                if float(Decimal(c).quantize(q, rounding=mode)) == got:
+                    ok = True
     if not ok:
         return "%r is not the expansion of %s cut at any digit" % (got, name)
     if abs(got - float(c)) >= 10.0 ** (1 - min(precision, 300)) and got != float(c):
